@@ -254,7 +254,7 @@ def text_object(draw, N, allow_bad):
     nbad = draw(st.sampled_from([0, 0, 0, 1, 1, 2])) if allow_bad else 0
     for _bad in range(nbad):
         pos = draw(st.integers(0, len(body)))
-        kind = draw(st.sampled_from(["Td", "Tc", "Tw", "Tz", "TL", "Ts", "Tm", "rg", "Tj", "TD"]))
+        kind = draw(st.sampled_from(["Td", "Tc", "Tw", "Tz", "TL", "Ts", "Tm", "rg", "Tj", "TD", "g", "k", "G"]))
         missing = draw(st.booleans())
         bo = draw(BADOPERAND)
         extra = []
@@ -269,6 +269,13 @@ def text_object(draw, N, allow_bad):
         elif kind == "rg":
             bad = [b"0.5", b"rg"] if missing else [b"0.5", bo, b"1", b"rg"]
             resync = ("rg", draw(N["col"]), draw(N["col"]), draw(N["col"]))
+        elif kind in ("g", "G"):
+            # affects nothing: neither the colour nor the current colour space (a later sc/SC keeps its operand count)
+            bad = [kind.encode()] if missing else [bo, kind.encode()]
+            resync = None
+        elif kind == "k":
+            bad = [b"0.1", b"0.2", b"k"] if missing else [b"0.1", bo, b"0.3", b"0.4", b"k"]
+            resync = None
         elif kind == "Tj":
             bad = [b"Tj"] if missing else [b"/Nm", b"Tj"]
             resync = None
@@ -310,6 +317,12 @@ def block(draw, N, depth, forms, allow_bad, form_names, cs=None):
         if k <= 3:
             out.append(draw(text_object(N, allow_bad)))
             _track(cs, out[-1:])
+            if allow_bad and cs[0] is not None and any(
+                    o[0] == "bad" and o[1][-1:] in ([b"g"], [b"k"], [b"rg"]) for o in out[-1][1]):
+                # a broken colour operator is followed by a colour set in the (unchanged) current colour space and by text
+                vals = tuple(draw(N["col"]) for _ in range(cs[0]))
+                out.append(("sc", vals, draw(st.sampled_from(["sc", "scn"]))))
+                out.append(("BT", [draw(N["tf"]), ("Tj", draw(TXT))]))
         elif k == 4:
             out.append(("cm", draw(N["mat"])))
         elif k == 5:
